@@ -178,6 +178,72 @@ func returnsValue(f *ssa.Function, v ssa.Value) bool {
 	return true
 }
 
+// wrapperCombinator recognises a wrapper that runs its interceptor call inside a private "call once" combinator:
+//
+//	return p.with…(arg, func() T { return interceptor(p, next) })
+//
+// H is an unexported function of the package that is only called (statically) from the wrapper, calls its
+// function-typed parameter exactly once on every path to a return and returns that call's result unchanged. The
+// closure handed to it then plays the role of the wrapper body.
+type combinator struct {
+	h        *ssa.Function
+	call     *ssa.Call     // the call of h in the wrapper
+	body     *ssa.Function // the closure handed to h
+	bodyCall *ssa.Call     // the call of the function parameter inside h
+}
+
+func wrapperCombinator(c *Ctx, w *ssa.Function) *combinator {
+	var out *combinator
+	allInstrs(w, func(_ *ssa.BasicBlock, _ int, ins ssa.Instruction) {
+		call, ok := ins.(*ssa.Call)
+		if !ok || out != nil {
+			return
+		}
+		h := call.Call.StaticCallee()
+		if h == nil || h.Pkg != w.Pkg || h.Blocks == nil {
+			return
+		}
+		for i, a := range call.Call.Args {
+			mc, ok := a.(*ssa.MakeClosure)
+			if !ok || i >= len(h.Params) {
+				continue
+			}
+			k, ok := mc.Fn.(*ssa.Function)
+			if !ok || k.Parent() != w {
+				continue
+			}
+			// h calls that parameter exactly once, on every path, and returns its result
+			var pcalls []*ssa.Call
+			for _, g := range append([]*ssa.Function{h}, h.AnonFuncs...) {
+				allInstrs(g, func(_ *ssa.BasicBlock, _ int, hi ssa.Instruction) {
+					if pc, ok := hi.(*ssa.Call); ok && !pc.Call.IsInvoke() && resolve(pc.Call.Value) == ssa.Value(h.Params[i]) {
+						pcalls = append(pcalls, pc)
+					}
+				})
+			}
+			if len(pcalls) != 1 || pcalls[0].Parent() != h || len(pcalls[0].Call.Args) != 0 {
+				continue
+			}
+			onAll := true
+			for _, r := range nonRecoverReturns(h) {
+				if !pcalls[0].Block().Dominates(r.Block()) {
+					onAll = false
+				}
+			}
+			if !onAll || !returnsValue(h, pcalls[0]) {
+				continue
+			}
+			// closed: only the wrapper calls it
+			args, closed := c.argsAtCallers(h, i)
+			if !closed || len(args) != 1 {
+				continue
+			}
+			out = &combinator{h: h, call: call, body: k, bodyCall: pcalls[0]}
+		}
+	})
+	return out
+}
+
 func checkWrapper(c *Ctx, in installer) {
 	w := in.wrapper
 	key := fmt.Sprintf("%s wrapper (%s)", in.kind, fnName(in.fn))
@@ -186,20 +252,49 @@ func checkWrapper(c *Ctx, in installer) {
 		return
 	}
 	// 1. the interceptor call
+	outer := w
+	isICall := func(ins ssa.Instruction) (*ssa.Call, bool) {
+		call, ok := ins.(*ssa.Call)
+		return call, ok && !call.Call.IsInvoke() && resolve(call.Call.Value) == ssa.Value(in.param)
+	}
+	direct := false
+	allInstrs(w, func(_ *ssa.BasicBlock, _ int, ins ssa.Instruction) {
+		if _, ok := isICall(ins); ok {
+			direct = true
+		}
+	})
+	if !direct {
+		if cb := wrapperCombinator(c, w); cb != nil {
+			// the wrapper runs the call inside a call-once combinator: the closure it hands over is the body
+			onAll := true
+			for _, r := range nonRecoverReturns(w) {
+				if !cb.call.Block().Dominates(r.Block()) {
+					onAll = false
+				}
+			}
+			c.check(onAll && returnsValue(w, cb.call), key+": runs its body through "+cb.h.Name(), cb.call.Pos(), cb.h.Name()+" calls the closure exactly once on every path and returns its result, and the wrapper returns that", "the wrapper does not return the result of its call-once helper on every path")
+			w = cb.body
+		}
+	}
 	var icalls []*ssa.Call
 	allInstrs(w, func(_ *ssa.BasicBlock, _ int, ins ssa.Instruction) {
-		if call, ok := ins.(*ssa.Call); ok && !call.Call.IsInvoke() && resolve(call.Call.Value) == ssa.Value(in.param) {
+		if call, ok := isICall(ins); ok {
 			icalls = append(icalls, call)
 		}
 	})
 	// also inside nested closures: the interceptor must not be called from there
-	for _, n := range w.AnonFuncs {
-		allInstrs(n, func(_ *ssa.BasicBlock, _ int, ins ssa.Instruction) {
-			if call, ok := ins.(*ssa.Call); ok && !call.Call.IsInvoke() && resolve(call.Call.Value) == ssa.Value(in.param) {
-				icalls = append(icalls, call)
-			}
-		})
+	var nested func(f *ssa.Function)
+	nested = func(f *ssa.Function) {
+		for _, n := range f.AnonFuncs {
+			allInstrs(n, func(_ *ssa.BasicBlock, _ int, ins ssa.Instruction) {
+				if call, ok := isICall(ins); ok && n != w {
+					icalls = append(icalls, call)
+				}
+			})
+			nested(n)
+		}
 	}
+	nested(outer)
 	if len(icalls) != 1 || icalls[0].Parent() != w {
 		c.bad(key+": interceptor called exactly once", w.Pos(), "the wrapper must call the interceptor exactly once on every path (found %d call sites)", len(icalls))
 		return
@@ -219,7 +314,7 @@ func checkWrapper(c *Ctx, in installer) {
 		c.unres(key+": arguments", ic.Pos(), "expected (receiver, next)")
 		return
 	}
-	c.check(resolve(args[0]) == ssa.Value(w.Params[0]), key+": receiver argument", ic.Pos(), "the wrapper's own first parameter is passed on", "the interceptor is given a parser/lexer other than the wrapper's own argument")
+	c.check(resolve(args[0]) == ssa.Value(outer.Params[0]), key+": receiver argument", ic.Pos(), "the wrapper's own first parameter is passed on", "the interceptor is given a parser/lexer other than the wrapper's own argument")
 	mc, ok := args[1].(*ssa.MakeClosure)
 	if !ok {
 		c.unres(key+": next", ic.Pos(), "the second argument is not a closure created in the wrapper")
@@ -246,9 +341,9 @@ func checkWrapper(c *Ctx, in installer) {
 	good := isPrevLoad && prevInstr != nil && prevInstr.Parent() == in.fn && instrDominates(prevInstr, in.store)
 	c.check(good, key+": next calls the previous function exactly once", nc.Pos(), "calls the value the field held before the wrapper was stored", "next does not call the previously installed function value (loaded before the wrapper is stored): the chain is broken or re-enters itself")
 	c.check(returnsValue(n, nc), key+": next returns the result unchanged", nc.Pos(), "returned as is", "next alters the result of the inner parse")
-	okArgs := len(nc.Call.Args) == len(w.Params)
+	okArgs := len(nc.Call.Args) == len(outer.Params)
 	if okArgs {
-		for i, p := range w.Params {
+		for i, p := range outer.Params {
 			if resolve(nc.Call.Args[i]) != ssa.Value(p) {
 				okArgs = false
 			}
@@ -739,6 +834,23 @@ func checkSaveRestore(c *Ctx, t *tables, a *parserAnchors, in installer) {
 	for _, n := range w.AnonFuncs {
 		allowed[n] = true
 	}
+	// save/set/restore may live in a call-once combinator the wrapper runs its body through (only the wrapper calls it)
+	cb := wrapperCombinator(c, w)
+	directCall := false
+	allInstrs(w, func(_ *ssa.BasicBlock, _ int, ins ssa.Instruction) {
+		if call, ok := ins.(*ssa.Call); ok && !call.Call.IsInvoke() && in.param != nil && resolve(call.Call.Value) == ssa.Value(in.param) {
+			directCall = true
+		}
+	})
+	if directCall {
+		cb = nil
+	}
+	if cb != nil {
+		allowed[cb.h] = true
+		for _, n := range cb.h.AnonFuncs {
+			allowed[n] = true
+		}
+	}
 	nw := 0
 	for _, f := range c.libFunctions("parser") {
 		allInstrs(f, func(_ *ssa.BasicBlock, _ int, ins ssa.Instruction) {
@@ -754,11 +866,29 @@ func checkSaveRestore(c *Ctx, t *tables, a *parserAnchors, in installer) {
 	var save *ssa.UnOp
 	var set *ssa.Store
 	var icall *ssa.Call
-	allInstrs(w, func(_ *ssa.BasicBlock, _ int, ins ssa.Instruction) {
-		if call, ok := ins.(*ssa.Call); ok && !call.Call.IsInvoke() && in.param != nil && resolve(call.Call.Value) == ssa.Value(in.param) {
-			icall = call
+	// the value that must be stored: the wrapper's own precedence argument
+	var wantPrec ssa.Value
+	if len(w.Params) == 2 {
+		wantPrec = w.Params[1]
+	}
+	if cb != nil {
+		// inside the combinator: the call of its function parameter stands for the interceptor call, and the stored
+		// value is the parameter that receives the wrapper's precedence argument at the (single) call site
+		wantPrec = nil
+		for i, a := range cb.call.Call.Args {
+			if len(w.Params) == 2 && resolve(a) == ssa.Value(w.Params[1]) && i < len(cb.h.Params) {
+				wantPrec = cb.h.Params[i]
+			}
 		}
-	})
+		w = cb.h
+		icall = cb.bodyCall
+	} else {
+		allInstrs(w, func(_ *ssa.BasicBlock, _ int, ins ssa.Instruction) {
+			if call, ok := ins.(*ssa.Call); ok && !call.Call.IsInvoke() && in.param != nil && resolve(call.Call.Value) == ssa.Value(in.param) {
+				icall = call
+			}
+		})
+	}
 	allInstrs(w, func(_ *ssa.BasicBlock, _ int, ins ssa.Instruction) {
 		switch x := ins.(type) {
 		case *ssa.UnOp:
@@ -776,7 +906,7 @@ func checkSaveRestore(c *Ctx, t *tables, a *parserAnchors, in installer) {
 		c.bad(key+": save and set", w.Pos(), "the wrapper must load the old value, then store its precedence argument into the field, before calling the interceptor")
 		return
 	}
-	c.check(instrDominates(save, set) && instrDominates(set, icall) && len(w.Params) == 2 && resolve(set.Val) == ssa.Value(w.Params[1]), key+": save and set", set.Pos(), "old value loaded, own precedence stored, before the interceptor runs", "the field is not set to the wrapper's own precedence argument before the interceptor call (or the old value is read after it)")
+	c.check(instrDominates(save, set) && instrDominates(set, icall) && wantPrec != nil && resolve(set.Val) == wantPrec, key+": save and set", set.Pos(), "old value loaded, own precedence stored, before the interceptor runs", "the field is not set to the wrapper's own precedence argument before the interceptor call (or the old value is read after it)")
 	// restore: deferred closure registered before the interceptor call, unconditional store of the saved value
 	var restoreOK, anyDefer bool
 	allInstrs(w, func(_ *ssa.BasicBlock, _ int, ins ssa.Instruction) {
